@@ -878,8 +878,9 @@ def run(prop, tier, seed):
     work = os.path.join(vlib.BUILD, "work", "C20")
     results = run_all(scns, exe, drv, work, tier)
     bad = [i for i in range(len(scns)) if correspondence(scns[i], results[i]) or oracles(scns[i], results[i])]
-    if bad and len(bad) <= 60:        # only what reproduces when run alone is reported
-        again = run_all([scns[i] for i in bad], exe, drv, work, tier + "-again", nworkers=1)
+    if bad:        # only what reproduces when run (almost) alone is reported; bounded
+        bad = sorted(bad, key=lambda i: (results[i]["status"] != "ok", len(scns[i]["lines"])))[:24]
+        again = run_all([scns[i] for i in bad], exe, drv, work, tier + "-again", nworkers=2)
         for i, r in zip(bad, again):
             if not (correspondence(scns[i], r) or oracles(scns[i], r)):
                 rep.notes.append("scenario %d disagreed in the parallel run and agreed when re-run alone (load): not reported" % i)
